@@ -21,9 +21,13 @@ RULE = ('programs of 1..6 NumPy-style steps (row/column integer, slice, mask, fa
         'of which one indexes a value that is itself the result of an indexing step, or an assignment / comparison '
         'under a non-base encoding')
 EXHAUSTIVE = {'quick': False, 'thorough': False}
-TIE = ('correspondence (the op program is evaluated in Coq by Model.C07.m_step_v on raw codes — variant [current] in '
-       'Corr/C07.v — and by the Spec instance of g_step on characters; every step of the implementation is compared '
-       'with both, and the Spec with Python\'s own list/str indexing)')
+TIE = 'translator+correspondence'
+TIE_DETAIL = ('translator: translate/gen_c07.py regenerates the index / length arithmetic and statement shapes of strops.join, '
+              'split, str_equal, _str_equal_two_encoded_ragged_arrays, util/ragged_slice.py and string_array.py into Gen/C07.v; '
+              'Bridge/C07.v + C07_source_tie equate them with the helpers Model/C07.v is built from.  correspondence: the op '
+              'program is evaluated in Coq by Model.C07.m_step_v on raw codes (variant [current] in Corr/C07.v) and by the Spec '
+              'instance of g_step on characters; every step of the implementation is compared with both, and the Spec with '
+              "Python's own list/str indexing")
 ASSUMPTIONS = ['A-NPS: npstructures.RaggedArray (external library) is modelled by its list-of-rows meaning; the model is '
                'validated against it on every generated program, not verified',
                'characters are ASCII; for alphabet encodings the "corresponding Python string" is the upper-cased text '
@@ -396,6 +400,8 @@ def expected(case):
             o = _st_obs(st2)
         if saved is not None and op[0] != 'copy':
             o['orig'] = saved[2]
+            if case.get('root'):
+                o['root'] = out[0]['v']
         out.append(o)
         st = st2
     return out
@@ -578,12 +584,25 @@ def observe(case):
     enc = case['enc']
     i = case['init']
     x = bnp.as_encoded_array(list(i['rows']) if i['kind'] == 'R' else i['s'], _enc_obj(enc))
-    out = [_observe_value(x)]
+    quiet = set(case.get('quiet', ()))          # steps whose result is deliberately not looked at (lazy views stay lazy)
+    root = x
+    out = [dict(k='Q')] if case.get('quiet_init') else [_observe_value(x)]
     saved = None
-    dead = False
-    for op in case['ops']:
-        if dead:
-            out.append(dict(k='X', what='not run'))
+    for n, op in enumerate(case['ops']):
+        if n in quiet:
+            try:
+                x2, ob = impl_step(x, op, enc)
+                if op[0] == 'copy':
+                    if len(op) > 1 and op[1] == 'src':      # keep working on the source, remember the copy
+                        saved = x2
+                    else:
+                        saved, x = x, x2
+                else:
+                    x = x2
+                out.append(dict(k='Q'))
+            except Exception as e:
+                nm = type(e).__name__
+                out.append(dict(k='E', err=ERRS.get(nm, nm), msg=str(e)[:120]))
             continue
         w = True
         try:
@@ -596,7 +615,10 @@ def observe(case):
             prev = x
             x2, ob = impl_step(x, op, enc)
             if op[0] == 'copy':
-                saved = prev
+                if len(op) > 1 and op[1] == 'src':
+                    saved, x2 = x2, prev
+                else:
+                    saved = prev
             o = ob if ob is not None else _observe_value(x2)
             x = x2
         except Exception as e:
@@ -608,6 +630,11 @@ def observe(case):
                 o['orig'] = saved.tolist()
             except Exception as e:
                 o['orig'] = 'error:' + type(e).__name__
+            if case.get('root'):
+                try:
+                    o['root'] = root.tolist()
+                except Exception as e:
+                    o['root'] = 'error:' + type(e).__name__
         out.append(o)
     return out
 
@@ -944,6 +971,31 @@ def generate(tier, seed):
             init = dict(kind='F', s=_rstr(rng, 'DNA' if enc == 'Base' else enc, rng.randint(2, 6)))
             enc = 'DNA' if enc == 'Base' else enc       # base-encoded text from a str is read-only at HEAD (finding)
         cases.append(_program(rng, enc, init, rng.randint(0, 2), forced=('copy', 'set', 'set')))
+    # 5. copy() of a view that nothing has materialised yet: the selection step and the copy step are NOT observed;
+    #    after the assignment the copy, the selection it was taken from and (when only the copy is assigned) the
+    #    initial array are read: list semantics says the copy is an independent value
+    views = ['row_slice', 'col_rev', 'row_mask', 'row_fancy', 'col_slice', 'rc', 'row_slice', 'col_slice']
+    for i in range(160 if tier == 'quick' else 1000):
+        enc = ENC_IDS[i % len(ENC_IDS)]
+        for _try in range(40):
+            rows = [_rstr(rng, enc, rng.randint(1, 4)) for _ in range(rng.randint(2, 4))]
+            c = _program(rng, enc, dict(kind='R', rows=rows), 0, forced=(views[(i // len(ENC_IDS)) % len(views)], 'copy', 'set', 'set'))
+            ops = c['ops']
+            if len(ops) < 3 or ops[1] != ['copy'] or ops[2][0] != 'set':
+                continue
+            st1, _ = ref_step(('R', enc, [canon(enc, r) for r in rows]), ops[0])
+            if st1[0] != 'R' or sum(len(r) for r in st1[2]) < 2:
+                continue
+            st2, _ = ref_step(st1, ops[2])
+            if st2 == st1:                      # the assignment must change something
+                continue
+            if i % 3 == 1:
+                ops[1] = ['copy', 'src']        # assign on the selection, watch the copy
+            else:
+                c['root'] = True                # assign on the copy, watch the selection and the initial array
+            c['quiet'] = [0, 1]
+            cases.append(c)
+            break
     # 4. (non-letter member)+32 characters against every encoding that has them: every use must raise EncodingError
     for enc in ENC_IDS:
         for ch in _shifted(enc):
@@ -1084,6 +1136,8 @@ def _encid(name):
 
 def _iobs(o):
     k = o.get('k')
+    if k == 'Q':
+        return 'IQ'
     try:
         if k == 'R':
             if 'lens' in o and o['lens'] != [len(r) for r in o['v']]:
@@ -1129,8 +1183,17 @@ def to_coq(case, obs):
             origt = '(Some [%s])' % _b(orig)
         else:
             origt = '(Some [[(-1)%Z]])'
-        steps.append('{| i_op := %s; i_writable := %s; i_obs := %s; i_orig := %s; i_exp := %s |}' % (
-            _op_term(op), cbool(o.get('w', True)), _iobs(o), origt, _iobs(exp[n + 1])))
+        rt = o.get('root')
+        if rt is None:
+            roott = '(@None (list (list Z)))'
+        elif isinstance(rt, list):
+            roott = '(Some %s)' % _rows_term(rt)
+        elif isinstance(rt, str) and not rt.startswith('error:'):
+            roott = '(Some [%s])' % _b(rt)
+        else:
+            roott = '(Some [[(-1)%Z]])'
+        steps.append('{| i_op := %s; i_writable := %s; i_obs := %s; i_orig := %s; i_root := %s; i_exp := %s |}' % (
+            _op_term(op), cbool(o.get('w', True)), _iobs(o), origt, roott, _iobs(exp[n + 1])))
     return '{| k_encid := %s; k_alpha := %s; k_ragged := %s; k_init := %s; k_init_obs := %s; k_steps := %s |}' % (
         cz(_encid(enc)), '(@None (list Z))' if al is None else '(Some %s)' % _b(al), cbool(init['kind'] == 'R'),
         _rows_term(rows), _iobs(obs[0]), clist(steps, 'istep'))
@@ -1138,6 +1201,10 @@ def to_coq(case, obs):
 
 # ------------------------------------------------------------------------------------------------ triage helpers
 def _same(e, o):
+    if o.get('k') == 'Q':
+        return True
+    if 'root' in e and e['root'] != o.get('root'):
+        return False
     if e['k'] != o.get('k'):
         return False
     if e['k'] == 'E':
